@@ -932,7 +932,12 @@ int main(int argc, char** argv) {
         init_xmodels();
         R.total = XMODELS.size() * words_upto(NXTOK, g_xk);
         R.fn = run_cmx;
-        R.describe = [](uint64_t i) { return "{\"case\":" + std::to_string(i) + "}"; };
+        R.describe = [](uint64_t i) {
+            uint64_t nw = words_upto(NXTOK, g_xk);
+            std::string inst = "<e>";
+            for (int t : word_at(i % nw, NXTOK, g_xk)) inst += XTOK[t].text;
+            return "{\"model\":" + jstr(XMODELS[i / nw].spec) + ",\"instance\":" + jstr(inst + "</e>") + "}";
+        };
         R.extra_json = "\"alphabet\":" + std::to_string(NXTOK) + ",\"k\":" + std::to_string(g_xk);
     } else if (space == "attr") {
         init_attr(a.str("defaults", "all") == "quick");
